@@ -1,6 +1,7 @@
 package main
 
 import (
+	"sync"
 	"crypto/sha256"
 	"encoding/json"
 	"flag"
@@ -125,21 +126,47 @@ func cmdCheck(args []string) {
 	// packages are then callees without a body: used through their contracts, or
 	// under the shallow-write assumption).  This keeps a function's verification
 	// conditions independent of which other packages a property happens to list.
+	phaseStart := time.Now()
+	phase := func(name string) {
+		if os.Getenv("VERIF_TIMING") != "" {
+			fmt.Fprintf(os.Stderr, "phase %-10s %.1fs\n", name, time.Since(phaseStart).Seconds())
+		}
+		phaseStart = time.Now()
+	}
 	engines := map[string]*Engine{}
 	var engList []*Engine
-	for _, pat := range ps.Packages {
-		pe := NewEngine(repo, verifDir)
-		if err := pe.Load([]string{pat}); err != nil {
-			// the tree does not build (or a contract file does not parse): a broken
-			// check, not a verdict about the property
-			fmt.Fprintln(os.Stderr, "gocv: load failed:", err)
-			os.Exit(2)
+	{
+		// the packages are independent of one another: loaded concurrently
+		loaded := make([]*Engine, len(ps.Packages))
+		errs := make([]error, len(ps.Packages))
+		var lwg sync.WaitGroup
+		sem := make(chan struct{}, 6)
+		for i, pat := range ps.Packages {
+			lwg.Add(1)
+			go func(i int, pat string) {
+				defer lwg.Done()
+				sem <- struct{}{}
+				defer func() { <-sem }()
+				pe := NewEngine(repo, verifDir)
+				errs[i] = pe.Load([]string{pat})
+				loaded[i] = pe
+			}(i, pat)
 		}
-		for _, p := range pe.pkgs {
-			engines[p.PkgPath] = pe
+		lwg.Wait()
+		for i, pe := range loaded {
+			if errs[i] != nil {
+				// the tree does not build (or a contract file does not parse): a broken
+				// check, not a verdict about the property
+				fmt.Fprintln(os.Stderr, "gocv: load failed:", errs[i])
+				os.Exit(2)
+			}
+			for _, p := range pe.pkgs {
+				engines[p.PkgPath] = pe
+			}
+			engList = append(engList, pe)
 		}
-		engList = append(engList, pe)
 	}
+	phase("load")
 	if len(engList) == 0 {
 		fmt.Fprintln(os.Stderr, "gocv: property lists no packages")
 		os.Exit(2)
@@ -363,7 +390,9 @@ func cmdCheck(args []string) {
 		}
 	}
 	// discharge: lemma blocks and function obligations
+	phase("load+gen")
 	solveLemmas(lemmaGen, recPre, filepath.Join(outDir, "lemmas"), timeout)
+	phase("lemmas")
 	// only solve selected obligations (plus covers)
 	for _, g := range gens {
 		var keep []*Obligation
@@ -375,6 +404,7 @@ func cmdCheck(args []string) {
 		g.obls = keep
 	}
 	solveAll(gens, vcPre, outDir, timeout, 14)
+	phase("solve")
 
 	// lemma status
 	for name, parts := range lemmaParts {
